@@ -1,4 +1,5 @@
 import LentilVerif.Model.Basic
+import LentilVerif.Gen.Rule07
 /-! Executable model of the seeded random models of `lentil/detector.py` and `lentil/wfe.py` for C18: each function is a
 **deterministic wrapper around an uninterpreted sampler** (`draw`, `z`, `fpn`, `x` below stand for what
 `np.random.default_rng(seed).poisson/normal/lognormal` return — pure functions of the seed and the parameters, contract of
@@ -31,21 +32,11 @@ def darkCurrent [LT K] [DecidableLT K] [Zero K] [One K] [Mul K] (floor : K → I
     (seed : Int) (i : Nat) : Int :=
   if 0 < fpnFactor then floor (rate * 1 * fpn seed i) else floor (rate * 1 * 1)
 
-/-- Rule-07 dark-current rate in electrons per pixel per second (`rule07_dark_current`, constants of Tennant et al. 2008); `exp`/`pow` are parameters -/
-def rule07Rate [LE K] [DecidableLE K] [Add K] [Sub K] [Mul K] [Div K] [One K] (exp : K → K) (pow : K → K → K) (ofScientific : Nat → Bool → Nat → K)
+/-- Rule-07 dark-current rate in electrons per pixel per second: **translated from `rule07_dark_current`** on every run
+(`Gen.rule07Rate`, tools/specs/c18.py: every constant and every operation); `exp`/`pow` and the literal constructor are parameters -/
+def rule07Rate [LE K] [DecidableLE K] [Add K] [Sub K] [Mul K] [Div K] (exp : K → K) (pow : K → K → K) (ofScientific : Nat → Bool → Nat → K)
     (temperature cutoff pixelscale : K) : K :=
-  let J0 := ofScientific 836700001853855 true 11
-  let C := (ofScientific 0 false 0) - ofScientific 116239134096245 true 14
-  let k := ofScientific 13802 true 27
-  let q := ofScientific 16021 true 23
-  let lamThr := ofScientific 463513642316149 true 14
-  let lamScale := ofScientific 200847413564122 true 15
-  let P := ofScientific 544071281108481 true 15
-  let lamCut := cutoff * ofScientific 1 false 6
-  let lamE := if lamThr ≤ lamCut then lamCut else lamCut / (1 - pow (lamScale / lamCut - lamScale / lamThr) P)
-  let J := J0 * exp (C * (ofScientific 124 true 2 * q / (k * lamE * temperature)))
-  let pxArea := (pixelscale * ofScientific 1 false 2) * (pixelscale * ofScientific 1 false 2)
-  1 / q * pxArea * J
+  Gen.rule07Rate exp pow ofScientific temperature cutoff pixelscale
 
 /-- `rule07_dark_current(temperature, cutoff, pixelscale, shape, fpn_factor, seed)`:
 `dark_current(rate, shape, fpn_factor, seed)` — the rate from Rule 07, **the caller's seed handed on unchanged** -/
